@@ -20,12 +20,14 @@ def h(*a) -> int:
     return int(hashlib.sha256(repr(a).encode()).hexdigest()[:12], 16)
 
 
-def meta_for(typ: str) -> dict:
+def meta_for(typ: str, api: str | None = None) -> dict:
+    """api: an older API version the simulator reports (mosaik then talks to it through its adapters: no max_advance in
+    step(), no setup_done() below 2.2); the explicitly reported type is respected whatever the version."""
     m = {"public": True, "params": [], "attrs": list(ATTRS)}
     if typ == "hybrid":
         m["trigger"] = ["tr"]
         m["non-persistent"] = ["ev"]
-    return {"api_version": "3.0", "type": typ, "models": {"M": m}}
+    return {"api_version": api or "3.0", "type": typ, "models": {"M": m}}
 
 
 def desc_line(typ: str) -> str:
@@ -148,7 +150,7 @@ def build_from(sc: dict):
 
         def start(i):
             s = sims[i]
-            ScriptSim.REG[f"S{i}"] = {"ctl": controller, "meta": meta_for(s["type"]), "script": make_script(sc, i)}
+            ScriptSim.REG[f"S{i}"] = {"ctl": controller, "meta": meta_for(s["type"], s.get("api")), "script": make_script(sc, i)}
             ents[i] = world.start("S", sim_id=f"S{i}").M.create(2)
 
         def rec(prefix):
@@ -450,6 +452,7 @@ def compare(driver, sc: dict, sched_seed: int):
                 break
     answers = driver.ask(lines)
     model_obs = answers[nbuild:]
+    legacy = {i for i, x in enumerate(sc["sims"]) if x.get("api")}
     bad = [a for a in answers[:nbuild] if a != "ok"]
     if bad:
         return False, {"impl": "built", "model": answers[:nbuild], "phase": "build"}, c
@@ -457,6 +460,10 @@ def compare(driver, sc: dict, sched_seed: int):
         if want is None:
             continue
         cm, ci = canon_model(got), canon_impl(want)
+        if legacy:
+            # a simulator of an older API version is not told max_advance
+            cm = " | ".join(_re.sub(r"^(begin (\d+) \S+) \d+ ", lambda mm: (mm.group(1) + " None ") if int(mm.group(2)) in legacy else mm.group(0), part)
+                            for part in cm.split(" | "))
         if want.startswith("wfx:"):
             ok = got.startswith("shape=true") and (want == "wfx:grouped" or (got.endswith("flat=true") and "push=true" in got and "pull=true" in got))
             if ok or nonuniform_cutoff(sc, True):
@@ -580,6 +587,11 @@ def gen_scenario(rng: random.Random, groups: bool = True, async_req: bool = Fals
         if rng.random() < 0.5:
             sc["extra_async"] = [{"sim": rng.randrange(n), "n": rng.randrange(0, 3), "kind": "set_event",
                                   "time": rng.choice([1, 2, 3, 4, sc["until"], sc["until"] + 2])}]
+    if not rt and rng.random() < 0.2:
+        # some simulators report an older API version: mosaik drives them through its adapters
+        for x in sims:
+            if rng.random() < 0.5:
+                x["api"] = rng.choice(["2.0", "2.2", "2.2"])
     if async_req and rng.random() < 0.25:
         a, b = rng.sample(range(n), 2)
         sc["extra_async"] = [{"sim": a, "n": rng.randrange(0, 3), "kind": rng.choice(["set_data", "get_data"]), "target": b}]
@@ -807,6 +819,8 @@ def features(sc: dict, outcome: str) -> list:
     f += ["type:" + s["type"] for s in sc["sims"]]
     for c in sc["connects"]:
         f.append("conn:" + ("weak" if c["weak"] else f"ts{c['ts']}") + (":async" if c.get("async") else ""))
+    if any(x.get("api") for x in sc["sims"]):
+        f.append("legacy-API simulators (adapters)")
         if c["src"] == c["dst"]:
             f.append("conn:self")
     f.append("lazy" if sc["lazy"] else "eager")
